@@ -42,7 +42,9 @@ def mk(name, sessions_spec, nm=1, index=False, extra=False, small_chunks=False, 
     for i, (steps, pl, ex) in enumerate(sessions_spec):
         kw = dict(maxNormalOrders=2)
         if shock and i == 0:
-            ev["SH"] = {"class": "FundamentalPriceShock", "target": "M0", "triggerTime": min(1, steps - 1), "priceChangeRate": 0.5}
+            # a shock window of two steps: its second firing must scale the CURRENT step's value only
+            ev["SH"] = {"class": "FundamentalPriceShock", "target": "M0", "triggerTime": min(1, steps - 1), "priceChangeRate": 0.5,
+                        "shockTimeLength": 2}
             kw["events"] = ["SH"]
         sessions.append(S(i, steps, pl, ex, **kw))
     cfg = mkcfg(sessions, markets=markets, agents=ags, events=ev)
@@ -119,8 +121,22 @@ def run(tier, seed):
     run_r("C06", tier, seed, deep, [acc_C06], 2 if tier == "quick" else 3, on_exc, [], RULE, res=res, label="session_lists_deeper")
     # boundary runs: deviations are restricted to the choice points of the active steps by construction
     run_r("C06", tier, seed, boundary_scenarios(), [acc_C06], 1 if tier == "quick" else 2, on_exc, WIT, RULE, res=res, label="chunk_boundaries_205_steps")
+    # market-level half on Engine M: T-heavy histories on one Market, incl. storage chunk lowered to 4
+    from ._m import ALPH
+    from ..explore_m import run_m_check
+    d = 3 if tier == "quick" else 4
+    plan = [("chunk4", "free", d, "quick"), ("chunk4", "cont", d, "quick"), ("empty", "free", d, "lean"), ("expiring", "free", d - 1, "quick")]
+    run_m_check(res, m_factory, plan, ALPH, seed, required_witness=WIT + ["tick_across_storage_chunk", "future_queries_refused"])
     return res
 
 
+def m_factory():
+    from ..monitors_m import C06MMon
+    return [C06MMon()]
+
+
 def replay(payload):
+    if payload.get("engine") == "M":
+        from ._m import replay_generic
+        return replay_generic(payload, m_factory)
     return replay_r(all_scenarios(), [acc_C06], on_exc, payload)
